@@ -77,16 +77,21 @@ def c08_nontrivial(case, v):
 
 def c08_extra(cases, verdicts):
     from collections import Counter
-    phases, kinds, out_hyp = Counter(), Counter(), 0
+    phases, kinds, out_hyp, not_full = Counter(), Counter(), 0, Counter()
     for c in cases:
-        kinds[c.get("k") if c.get("k") != "solve" else "solve/" + str(c.get("pop"))] += 1
+        kind = c.get("k") if c.get("k") != "solve" else "solve/" + str(c.get("pop"))
+        kinds[kind] += 1
         if c.get("in_hyp") is False:
             out_hyp += 1
         if c.get("k") == "rosomaxa" and isinstance(c.get("impl"), list):
             for o in c["impl"]:
                 phases[o["phase"]] += 1
+        v = verdicts.get(c.get("id")) or {}
+        if (v.get("info") or {}).get("full_property_holds") is False:
+            not_full[kind] += 1
     return {"populations": dict(kinds), "rosomaxa_observations_per_phase": {str(k): v for k, v in phases.items()},
-            "greedy_cases_with_a_skipped_better_batch_element": out_hyp}
+            "greedy_cases_generated_with_a_skipped_better_batch_element": out_hyp,
+            "cases_where_the_real_code_misses_the_full_property_but_meets_the_weaker_proved_one": dict(not_full)}
 
 
 PROP = dict(
@@ -115,9 +120,11 @@ PROP = dict(
                  "selection_size >= 2, initial_size >= 4 (a smaller one makes Network::new fail: `expect(\"cannot create "
                  "network\")`), rebalance_memory >= 1, spread/distribution factor in (0,1)",
                  "Greedy::add_all of /repo stops looking at a batch after the first improving element (`acc || self.add(..)`): "
-                 "the model has it (Greedy.repoShortCircuits) and for Greedy the specification counts only the considered "
-                 "prefix of a batch as offered; theorem greedy_repo_add_all_loses_best is the counter-witness, "
-                 "corpus/C08/greedy_batch_skips_better.jsonl replays it on the real code"],
+                 "the model has it (Greedy.repoShortCircuits); for Greedy the oracle accepts a trace that meets the full "
+                 "specification or, failing that, the proved weaker one (only the considered prefix of a batch counts as "
+                 "offered) and the evidence counts the latter; theorem greedy_repo_add_all_loses_best is the counter-witness, "
+                 "corpus/C08/greedy_batch_skips_better.jsonl replays it on the real code. After a repair of greedy.rs set "
+                 "Greedy.repoShortCircuits := false (the correspondence run then demands the full property for Greedy too)"],
 )
 
 META = dict(
